@@ -109,7 +109,7 @@ def compile_props(pid, timeout=600):
         if b.startswith("Closed"):
             res["assumptions"][name] = []
         else:
-            ax = [a for a in re.findall(r"(?m)^([A-Za-z_][\w.']*)\s*:", b) if a != "Axioms"]
+            ax = [a for a in re.findall(r"(?m)^([A-Za-z_][\w.']*)[ \t]*(?::|\n\s+:)", b) if a != "Axioms"]
             res["assumptions"][name] = ax
             axioms_all.update(ax)
     res["axioms_all"] = sorted(axioms_all)
